@@ -112,6 +112,9 @@ pub struct Family {
     pub p_expire_max: u32,
     /// Percentage of runs using the `_owned` API variants (unless forced on the command line).
     pub p_owned: u32,
+    /// Sequential histories: whenever some agent can run, run it first (every call runs to completion
+    /// or to the point where it blocks before the client does anything else).
+    pub eager: bool,
 }
 
 const BASE: Family = Family {
@@ -142,9 +145,10 @@ const BASE: Family = Family {
     expire_max_d: 4,
     p_expire_max: 3,
     p_owned: 50,
+    eager: false,
 };
 
-pub const FAMILY_NAMES: &[&str] = &["mix", "nolimit", "evict", "expiry", "stream", "pool", "nocancel"];
+pub const FAMILY_NAMES: &[&str] = &["mix", "nolimit", "evict", "expiry", "stream", "pool", "nocancel", "seq"];
 
 /// Named parameter sets. To add a family: add a name above and an arm here.
 pub fn family(name: &str) -> Option<Family> {
@@ -213,6 +217,19 @@ pub fn family(name: &str) -> Option<Family> {
         // like mix but without client cancellations, `expire max` and expiry: avoids the known
         // defects of the unfixed code, so that whole runs can be compared with the model
         "nocancel" => Family { name: "nocancel", w_cancel: 0, w_expire: 0, p_expire_max: 0, ..BASE },
+        // single-threaded histories: every call runs to completion (or until it blocks) at once
+        "seq" => Family {
+            name: "seq",
+            eager: true,
+            max_agents: 3,
+            max_steps: 45,
+            w_gop: 24,
+            w_cancel: 2,
+            w_count: 3,
+            w_keys: 3,
+            gop_w: [6, 3, 3, 3, 3, 3, 1],
+            ..BASE
+        },
         // P: LockPool (b, a, t; no values)
         "pool" => Family {
             name: "pool",
@@ -369,6 +386,14 @@ fn random_gop(f: &Family, rng: &mut Rng) -> Gop {
 
 /// Choose the next action of a random walk; `None` if nothing is enabled.
 fn random_action(f: &Family, backend: Backend, en: &Enabled, rng: &mut Rng) -> Option<Vec<Action>> {
+    if f.eager {
+        if let Some(a) = en.resumable.first() {
+            return Some(vec![Action::Resume(*a)]);
+        }
+        if let Some(a) = en.stream_continue.first() {
+            return Some(vec![Action::StreamStep(*a)]);
+        }
+    }
     let can_start = en.alive_agents < f.max_agents;
     let lru = backend == Backend::L;
     let pool = backend == Backend::P;
